@@ -271,7 +271,7 @@ func (e *srvEnv) do(method, path string, body []byte, chunked bool) (int, string
 func TestVerifC12(t *testing.T) {
 	const check = "C12.endpoint"
 	res := verifrt.NewResult(check)
-	res.Rule = "requests to the real handler chain (newHandler: log, timeout, request-size, recover middlewares; FS storage) over loopback HTTP: methods {POST, GET, PUT, HEAD, DELETE, PATCH, OPTIONS, lower-case, garbage}; bodies: valid reports with approved contents (hostile X values, config versions, 0-2 programs), re-uploads of a shorter/longer report under an already stored week and X, each with exactly one invalid aspect (week, config, X==0, each of the five build fields, counter/bucket near-misses, stack names, empty unapproved program, null program entry), truncated JSON, wrong types, partial objects, random bytes, bodies just under/over the size limit with Content-Length and with chunked encoding; requests are sent in sequences so that state carried over between requests shows. Oracle: MUST-STORE => 200 and exactly one new/changed object <upload bucket>/<Week>/<%g of X>.json decoding to the same report; MUST-REJECT => 4xx and storage listing unchanged; always status < 500 and nothing outside the upload bucket. distinct = distinct request bodies; non-trivial = body parses as a JSON object"
+	res.Rule = "requests to the real handler chain (newHandler: log, timeout, request-size, recover middlewares; FS storage) over loopback HTTP: methods {POST, GET, PUT, HEAD, DELETE, PATCH, OPTIONS, lower-case, garbage}; bodies: valid reports with approved contents (hostile X values, config versions, 0-2 programs), re-uploads of a shorter/longer report under an already stored week and X, each with exactly one invalid aspect (week, config, X==0, each of the five build fields, counter/bucket near-misses, stack names, empty unapproved program, null program entry), truncated JSON, wrong types, partial objects, random bytes, bodies just under/over the size limit with Content-Length and with chunked encoding; requests are sent in sequences so that state carried over between requests shows; then rounds of 4-16 overlapping requests (two thirds valid with distinct week/X, one third invalid). Oracle: MUST-STORE => 200 and exactly one new/changed object <upload bucket>/<Week>/<%g of X>.json decoding to the same report; MUST-REJECT => 4xx and storage listing unchanged; always status < 500 and nothing outside the upload bucket. distinct = distinct request bodies; non-trivial = body parses as a JSON object"
 	base := vtmp("c12-")
 	defer os.RemoveAll(base)
 	const limit = 100 * 1024
@@ -440,8 +440,105 @@ func TestVerifC12(t *testing.T) {
 			res.Sample(map[string]any{"case": i, "method": method, "class": expect + ":" + why, "status": status, "body": fmt.Sprintf("%.200s", body)})
 		}
 	}
+	// overlapping requests: valid and invalid reports sent at once by several
+	// clients; every valid one must end up stored exactly, no invalid one may
+	// leave a trace, whatever the handlers share behind the scenes
+	rounds := verifrt.Scale(12, 400)
+	for rd := 0; rd < rounds; rd++ {
+		if !verifrt.WantCase(check, 1_000_000+rd) {
+			continue
+		}
+		rnd := verifrt.NewRand(verifrt.Seed(), fmt.Sprintf("%s/conc/%d", check, rd))
+		ents, _ := os.ReadDir(filepath.Join(storageRoot, "test-uploaded"))
+		for _, en := range ents {
+			os.RemoveAll(filepath.Join(storageRoot, "test-uploaded", en.Name()))
+		}
+		type creq struct {
+			body  []byte
+			week  string
+			x     float64
+			valid bool
+			why   string
+			st    int
+			err   error
+		}
+		nreq := 4 + rnd.Intn(13)
+		reqs := make([]*creq, nreq)
+		used := map[string]bool{}
+		for k := range reqs {
+			rep := validReport(rnd)
+			for used[fmt.Sprintf("%s/%g", rep.Week, rep.X)] {
+				rep = validReport(rnd)
+			}
+			used[fmt.Sprintf("%s/%g", rep.Week, rep.X)] = true
+			q := &creq{week: rep.Week, x: rep.X, valid: true, why: "valid"}
+			if rnd.Intn(3) == 0 {
+				q.body, q.why = invalidate(rnd, rep)
+				q.valid = false
+			} else {
+				q.body, _ = json.Marshal(rep)
+			}
+			reqs[k] = q
+		}
+		before := listing(e.root)
+		done := make(chan bool, nreq)
+		for _, q := range reqs {
+			go func(q *creq) {
+				q.st, _, q.err = e.do("POST", "/upload/"+q.week, q.body, false)
+				done <- true
+			}(q)
+		}
+		for range reqs {
+			<-done
+		}
+		after := listing(e.root)
+		res.Eval()
+		res.Hit("concurrent-round")
+		rp := verifrt.CaseReplay(1_000_000+rd, map[string]any{"requests": nreq})
+		want := map[string]bool{}
+		for _, q := range reqs {
+			if q.err != nil {
+				res.Inconc(fmt.Sprintf("concurrent request failed: %v", q.err))
+				continue
+			}
+			if q.st >= 500 {
+				res.Violate("status-5xx:concurrent:"+q.why, fmt.Sprintf("a %s request answered %d while others were in flight", q.why, q.st), rp)
+			}
+			if q.valid {
+				name := filepath.Join("storage", "test-uploaded", q.week, fmt.Sprintf("%g.json", q.x))
+				want[name] = true
+				if q.st != 200 {
+					res.Violate("rejected-valid:concurrent", fmt.Sprintf("valid report answered %d while others were in flight", q.st), rp)
+					continue
+				}
+				sb, err := os.ReadFile(filepath.Join(e.root, name))
+				if err != nil {
+					res.Violate("not-stored:concurrent", fmt.Sprintf("valid report answered 200 but %s does not exist", name), rp)
+					continue
+				}
+				var got, exp jreport
+				if json.Unmarshal(sb, &got) != nil {
+					res.Violate("stored-not-json:concurrent", name, rp)
+					continue
+				}
+				json.Unmarshal(q.body, &exp)
+				gb, _ := json.Marshal(normalize(&got))
+				eb, _ := json.Marshal(normalize(&exp))
+				if !bytes.Equal(gb, eb) {
+					res.Violate("stored-differs:concurrent", fmt.Sprintf("stored object %s decodes to %.300s, sent %.300s", name, gb, eb), rp)
+				}
+			} else if q.st < 400 && !strings.HasPrefix(q.why, "trailing") {
+				res.Violate("accepted-invalid:concurrent:"+q.why, fmt.Sprintf("invalid (%s) answered %d while others were in flight", q.why, q.st), rp)
+			}
+		}
+		for k := range after {
+			if _, ok := before[k]; !ok && !want[k] {
+				res.Violate("stored-unexpected:concurrent", "object "+k+" appeared that no valid request of the round names", rp)
+			}
+		}
+	}
 	_ = storageRoot
-	res.Require("store:valid", "store:re-upload-shorter", "store:re-upload-longer-or-equal", "reject:week", "reject:config", "reject:X==0", "reject:goos", "reject:goarch", "reject:counter", "reject:stack", "reject:null-program", "reject:empty-unapproved-program",
+	res.Require("concurrent-round", "store:valid", "store:re-upload-shorter", "store:re-upload-longer-or-equal", "reject:week", "reject:config", "reject:X==0", "reject:goos", "reject:goarch", "reject:counter", "reject:stack", "reject:null-program", "reject:empty-unapproved-program",
 		"reject:truncated", "reject:wrong-type-or-partial", "reject:oversize", "reject:oversize-chunked", "store:near-limit")
 	if err := res.Write(); err != nil {
 		t.Fatal(err)
